@@ -108,4 +108,14 @@ def compLabels (i : Inp) : List Nat := (List.range i.n).foldl (fun lab _ => rela
 
 def compMin (i : Inp) (u : Nat) : Nat := (compLabels i).getD u u
 
+/-- the labels are closed: the two ends of every unvalved link carry the same label -/
+def Inp.closed (i : Inp) (lab : List Nat) : Bool :=
+  (List.range i.nl).all fun k => i.valved k || lab.getD (i.ends k).1 0 == lab.getD (i.ends k).2 0
+
+/-- the concrete components function: `n` sweeps of min-label relaxation, accepted only when the result is closed
+(Lemmas/SegmentsComp.lean: an accepted result satisfies the `connected_components` contract `CompOk`) -/
+def compChecked (i : Inp) : Option (List Nat) :=
+  let lab := compLabels i
+  if i.closed lab then some lab else none
+
 end Wntr.Segments
